@@ -11,7 +11,8 @@ from props import enip_common as E, logix_common as L, c02
 
 TAGS = [dict(name='T', ty='DINT', scalar=False, n=4, addr=None, init=[('i', 0)] * 4),
         dict(name='S', ty='INT', scalar=False, n=3, addr=(0x99, 1, 2), init=[('i', 5), ('i', 6), ('i', 7)]),
-        dict(name='B', ty='SINT', scalar=True, n=1, addr=None, init=[('i', -1)])]
+        dict(name='B', ty='SINT', scalar=True, n=1, addr=None, init=[('i', -1)]),
+        dict(name='TA', ty='INT', scalar=False, n=2, addr=None, init=[('i', 1), ('i', 2)])]      # (a two-character name: C08's zero-length segments)
 LISTS = {0x04: 'ListServices', 0x63: 'ListIdentity', 0x64: 'ListInterfaces'}
 
 
@@ -47,7 +48,10 @@ def gen_cip(rng):
         # the property allows - so those two travel inside a bundle, where the Message Router answers them)
         return rng.choice([('get', ('sym', 'nosuch', None)), ('set', ('sym', 'Tx', None), [1, 2]), ('get', ('num', 0x99, 1, 9, None)),
                            ('multi', [('read', ('sym', 'T', None), 1), ('get', ('num', 0x77, 1, 1, None)), ('set', ('num', 0x99, 7, 2, None), [0] * 6),
-                                      ('get', ('num', 0x99, 1, 2, None))])])
+                                      ('get', ('num', 0x99, 1, 2, None))]),
+                           # the Message Router's own class, an instance that does not exist, the attribute number and byte count of tag T
+                           ('multi', [('set', ('num', 2, 7, 1, None), [rng.getrandbits(8) for _ in range(16)]), ('readf', ('sym', 'T', None), 4, 0),
+                                      ('get', ('num', 2, 9, 1, None))])])
     if k < 0.84:
         # the whole attribute (6 bytes), or cut short at an element boundary / inside an element / too long: refused, nothing changes
         return ('set', ('num', 0x99, 1, 2, None), [rng.getrandbits(8) for _ in range(rng.choice([6, 6, 6, 2, 4, 5, 8]))])
